@@ -317,7 +317,7 @@ func (r *Run) report(all []*Obligation, unbound, engErrs []string) int {
 	trusted = append(trusted, tframes...)
 	trusted = append(trusted, r.Spec.TrustedBase...)
 	trusted = append(trusted, "govc translation of the Go subset (DESIGN.md §3.4)", "go/types", "z3 4.8.12 / z3 5.1.0 / cvc5 1.0.3")
-	assumptions := []string{"integers are mathematical in mode int (no overflow obligations)", "panics only at safe-* sites of functions marked safe", "sequential semantics (no interleaving)", "slices have value semantics (aliasing through shared backing arrays is not modelled)"}
+	assumptions := []string{"integers are mathematical in mode int (no overflow obligations)", "no-panic obligations are generated only in functions marked safe; elsewhere a nil dereference ends the path (a panicking execution reaches no later return or sink) and other panics are not modelled", "sequential semantics (no interleaving)", "slices have value semantics (aliasing through shared backing arrays is not modelled)"}
 	var as []string
 	for a := range r.Assume {
 		as = append(as, a)
